@@ -1,0 +1,43 @@
+//go:build verif
+
+package netutil
+
+// Contracts for the deductive verifier in /verif (govc).  This file is only
+// compiled with the "verif" build tag and contains no declarations: every
+// contract is a structured comment keyed by function name and loop ordinal.
+
+/*@
+spec fn isDigit(c int) bool = c >= '0' && c <= '9'
+
+spec fn hexval(c int) int =
+  (c >= '0' && c <= '9') ? c - '0' :
+  (c >= 'a' && c <= 'f') ? c - 'a' + 10 :
+  (c >= 'A' && c <= 'F') ? c - 'A' + 10 : 255
+
+spec fn isHex(c int) bool = hexval(c) != 255
+
+// decPrefix is the decimal value of the first n (<= 3) bytes of t.
+spec fn decPrefix(t string, n int) int =
+  n <= 0 ? 0 :
+  n == 1 ? t[0] - '0' :
+  n == 2 ? (t[0] - '0') * 10 + (t[1] - '0') :
+  (t[0] - '0') * 100 + (t[1] - '0') * 10 + (t[2] - '0')
+
+// octetLabel: a decimal number in [0, 255] without leading zeros.
+spec fn octetLabel(t string) bool =
+  len(t) >= 1 && len(t) <= 3 &&
+  (forall i in 0..len(t): isDigit(t[i])) &&
+  (len(t) > 1 ==> t[0] != '0') &&
+  decPrefix(t, len(t)) <= 255
+
+func fromHexByte
+  ensures value: n == hexval(c)
+
+func isIPv4Label
+  ensures grammar: ok <==> octetLabel(label)
+  loop 0
+    invariant 1 < len(label) && len(label) <= 3 && label[0] != '0'
+    invariant $pos == $i && 0 <= $i && $i <= len(label)
+    invariant forall k in 0..$pos: isDigit(label[k])
+    invariant val == decPrefix(label, $pos)
+@*/
